@@ -440,3 +440,17 @@ package server
 //@   acquires 2
 //@   locks C25
 //@   guards C26
+
+// Destroying an update sender waits for its goroutine to take the signal: it
+// is done, and an address family is detached, with no lock held.
+//@ contract (*UpdateSender).Destroy
+//@   props C25
+//@   nosafety
+//@   acquires 0
+//@   locks C25
+//@   noblock
+//@ contract (*fsmAddressFamily).dispose
+//@   props C25
+//@   acquires 0
+//@   locks C25
+//@   noblock
